@@ -2,6 +2,7 @@ package indexes
 
 import (
 	"context"
+	"errors"
 	"fmt"
 	"io"
 	"os"
@@ -187,6 +188,10 @@ func (r *SlotToCid_Reader) Get(slot uint64) (cid.Cid, error) {
 		key := Uint64tob(slot)
 		value, err := r.deprecatedIndex.Lookup(key)
 		if err != nil {
+			if errors.Is(err, compactindex36.ErrNotFound) {
+				// callers recognise a missing key by the sentinel of the current format
+				return cid.Undef, compactindexsized.ErrNotFound
+			}
 			return cid.Undef, err
 		}
 		_, c, err := cid.CidFromBytes(value[:])
